@@ -1,0 +1,44 @@
+//go:build verif
+// +build verif
+
+package criteria_bounding
+
+// Contracts for gocv (comment-only; compiled out unless the tag "verif" is set, and empty then).
+
+//@ spec clamp2(x real, lo real, hi real) real = let v = (x < lo ? lo : x) in (v > hi ? hi : v)
+//@ spec trimmed(b CriteriaBounding, x real) real = (b.DisallowNegativeValues && x < 0.0) ? 0.0 : x
+//@ spec boundedIn(b CriteriaInRangeBounding, x real) real =
+//@      b.valueRange == nil ? trimmed(*b.bounding, x) : clamp2(trimmed(*b.bounding, x), b.valueRange.Min, b.valueRange.Max)
+
+//@ func boundValueInRange
+//@   property C17 C18 C19
+//@   nopanic
+//@   ensures [clamp] result == clamp2(value, scaledRange.Min, scaledRange.Max)
+//@ func scaleRange
+//@   property C17 C18 C19
+//@   requires valueRange != nil
+//@   ensures [scaled] result != nil && result.Min == utils.scaledMin(*valueRange, scaling) && result.Max == utils.scaledMax(*valueRange, scaling)
+//@ func (*CriteriaBounding).trimBelowZeroIfRequired
+//@   property C17 C18 C19
+//@   ensures [trim] result == trimmed(*b, value)
+//@ func (*CriteriaBounding).WithRange
+//@   property C17 C18 C19
+//@   requires valueRange != nil
+//@   ensures [kept] fresh(result) && result.bounding == b
+//@   ensures [interval] b.AllowedValuesRangeScaling > 0.0 ? (result.valueRange != nil
+//@              && result.valueRange.Min == utils.scaledMin(*valueRange, b.AllowedValuesRangeScaling)
+//@              && result.valueRange.Max == utils.scaledMax(*valueRange, b.AllowedValuesRangeScaling)) : result.valueRange == nil
+//@ func (*CriteriaInRangeBounding).BoundValue
+//@   property C17 C18 C19
+//@   ensures [bounded] result == boundedIn(*b, value)
+//@ func FromParams
+//@   property C17 C18 C19 C20
+//@   ensures [nonzero] result.AllowedValuesRangeScaling != 0.0 && fresh(result)
+//@ func DefaultParams
+//@   property C17 C18 C19
+//@   ensures fresh(result) && result.AllowedValuesRangeScaling == -1.0 && !result.DisallowNegativeValues
+
+//@ lemma [C17 C18 C19] clamp_in_interval: forall x real, lo real, hi real
+//@   requires lo <= hi
+//@   ensures  lo <= clamp2(x, lo, hi) && clamp2(x, lo, hi) <= hi
+//@   ensures  lo <= x && x <= hi ==> clamp2(x, lo, hi) == x
